@@ -135,9 +135,9 @@ def audit_axioms(pid, prop_files):
             f.write("#print axioms %s\n" % n)
     rc, out = sh(["lake", "env", "lean", path], cwd=LEAN, timeout=1800)
     ax = {}
-    for m in re.finditer(r"'([^']+)' depends on axioms: \[([^\]]*)\]", out.replace("\n", " ")):
+    for m in re.finditer(r"'(\S+?)' depends on axioms: \[([^\]]*)\]", out.replace("\n", " ")):
         ax[m.group(1)] = {a.strip() for a in m.group(2).split(",") if a.strip()}
-    for m in re.finditer(r"'([^']+)' does not depend on any axioms", out):
+    for m in re.finditer(r"'(\S+?)' does not depend on any axioms", out):
         ax[m.group(1)] = set()
     return names, ax, (rc, out)
 
